@@ -1125,6 +1125,7 @@ void runOne(const sim::Options& opt, uint64_t run, sim::RunReport& rep) {
     for (auto& f : po.findings)
         if (f.owner != property) rep.count("prog.foreign_findings");
     for (auto& o : plan.ops) rep.count(std::string("op.") + qh::kindName(o.kind));
+    for (auto& o : plan.ops) if (o.kind == qh::GATE && o.loop >= 2) rep.count("op.gate_in_for_loop");
     if (cls == "harness_rejected") {
         rep.count("harness.rejected_program");
         fprintf(stderr, "rejected (run %llu): %s\n", (unsigned long long)run, detail.c_str());
